@@ -108,6 +108,12 @@ CHECKS = {
             "(offset, opname, operand, '>>', line number); nothing leaks to stdout; pydisasm exits 0 with the same text.",
             "the stream itself is C02-C05's subject; pre-2.3 line-number column (SET_LINENO driven) not compared",
             "DESIGN.md §4 C12"),
+    "C07": ("metamorphic differential: the same generated / stdlib / corpus file decoded inside worker processes of "
+            "hosts 3.8-3.13 and by both routes (native marshal fast path vs portable unmarshaller) on the file's own host",
+            "Canonical code tree, instruction data and normalised classic listing are identical across drawn host "
+            "pairs and across native/portable routes, on generated programs, stdlib samples and corpus files.",
+            "normalised: addresses, host banner, code-object repr spelling, element order in set reprs",
+            "DESIGN.md §4 C07"),
 }
 
 NOT_YET = {}
